@@ -91,8 +91,8 @@ ReadAtTimesClauses(e) ==
       drop == IF keepArg # <<>> THEN Complement(keepArg, 0, total) ELSE delArg
       gen == e.args.gen # "none"
       ret0 == [i \in IdxS(e.ret) |-> IF e.ret[i] < 0 THEN 0 ELSE e.ret[i]]       \* generated samples project to 0
-  IN [ C17_both_lists_rejected |-> both => e.st = "ArgumentError",
-       C17_times_beyond_recording_rejected |-> (~both /\ beyond) => e.st = "ArgumentError",
+  IN [ C17_both_lists_rejected |-> both => ~OkA(e),                 \* "is rejected": the statement names no exception class
+       C17_times_beyond_recording_rejected |-> (~both /\ beyond) => ~OkA(e),
        C17_read_succeeds |-> (~both /\ ~beyond) => OkA(e),
        C17_kept_stretches_in_order |-> (OkA(e) /\ on /\ ~both /\ ~beyond) => ret0 = Assemble(s, keep, drop, M, gen),
        C17_same_length_with_replacement |-> (OkA(e) /\ on /\ gen /\ ~both /\ ~beyond) => Len(e.ret) = Len(s),
